@@ -188,3 +188,27 @@ def with_layouts(rng, cases, p_alt=0.15, p_lumped=0.0):
                     and all(len(t) for t in case.get('trajs', [[]])):
                 case['layout'] = 'lumped'
         yield case
+
+
+def size_classes(rng, labs=None, lag=2, sticky=0.85):
+    """trajectory sets of unusual SIZE (yields (trajs, tag)): several hundred trajectories, one
+    trajectory of more than 2^16 frames, more than 64 / 128 / 256 states, zero-length members"""
+    kind = rng.choice(['many-trajs', 'long', 'many-states', 'many-states', 'empties'])
+    if labs is None:
+        labs, _ = alphabet(rng, k=rng.randint(2, 4))
+    if kind == 'many-trajs':
+        return many_short(rng, labs, lag), kind
+    if kind == 'long':
+        return [traj(rng, labs, rng.randint(66000, 69000), sticky=sticky), traj(rng, labs, 7, sticky=sticky)], kind
+    if kind == 'many-states':
+        k = rng.choice([66, 70, 131, 260])
+        base = rng.choice([0, 1, -30])
+        wide = [base + 3 * i for i in range(k)] if rng.random() < 0.4 else list(range(base, base + k))
+        t, cur = [], 0
+        for _ in range(rng.randint(1500, 2500)):
+            t.append(wide[cur])
+            r = rng.random()
+            cur = cur if r < sticky else (cur + 1) % k if r < sticky + 0.12 else rng.randrange(k)
+        return [t + wide, wide[::-1] + traj(rng, wide[:5], 30, sticky=sticky)], kind
+    trajs = trajset(rng, labs, ntraj=rng.choice([2, 3, 4]))
+    return insert_empties(trajs, empty_positions(rng, len(trajs))), kind
